@@ -243,6 +243,11 @@ def judge_diagram_eval(obj, ev) -> None:
 def judge_entry_point(a: dict, outcome: str, exc_type) -> None:
     if "C13" not in HUB.judges:
         return
+    reasons = entry_point_invalid_reasons(a)
+    _judge_entry_point(a, outcome, exc_type, reasons)
+
+
+def entry_point_invalid_reasons(a: dict) -> list:
     reasons = []
     if a.get("exclusions") and a.get("regex_exclusions"):
         reasons.append("exclusions and regex_exclusions both given")
@@ -257,6 +262,10 @@ def judge_entry_point(a: dict, outcome: str, exc_type) -> None:
             reasons.append("module_path outside root_path")
     except Exception:  # noqa: BLE001
         pass
+    return reasons
+
+
+def _judge_entry_point(a, outcome, exc_type, reasons) -> None:
     HUB.acc.count("c13_entry_point_calls")
     if reasons:
         HUB.acc.count("c13_entry_point_invalid_calls")
